@@ -134,7 +134,16 @@ def explore(fn, part=None, *, budget=600.0, per_path=30.0, max_failures=8, max_s
                         if twin:
                             res["witnesses"] += 1
                             c = run_concrete(fn, wit, part)
-                            if c[0] != "ok" or c[1] != out_r:
+                            if c[0] == "violation":
+                                # the real code, run concretely on this path's model, violates the property although the
+                                # symbolic run of the path did not (a stub/builtin model is more permissive than the real
+                                # thing). It is a real execution: report it (after the stand-alone replay).
+                                k = c[1]
+                                fail_keys[k] = fail_keys.get(k, 0) + 1
+                                if fail_keys[k] <= 2:
+                                    res["failures"].append({"key": k, "msg": c[2] + " [found by the concrete twin of a symbolically passing path]",
+                                                            "inputs": wit, "sym_key": None, "reproduced": True, "concrete": c})
+                            elif c[0] != "ok" or c[1] != out_r:
                                 if len(res["diverged"]) < 5:
                                     res["diverged"].append({"inputs": wit, "symbolic": out_r, "concrete": c})
                                 else:
